@@ -445,6 +445,16 @@ def fam_conn(tier, seed):
                  dict(rng.choice(STOP_VARIANTS), at=tstop, i="A"),
                  {"at": tdisc + grace, "do": "release_gate", "i": "A"}]
         out.append(scn("conn-stop-at-grace-%d" % k, seed * 1000 + 900 + k, H, 3.0, insts, steps, "conn", tstop + 8 * S))
+    # a grace timer armed in one term, a later disconnect notification while follower, and a new term before the old timer fires
+    for k in range(4 if tier == "quick" else 30):
+        H = 500 * MS
+        grace = rng.choice([4200, 4400, 4600]) * MS
+        t1 = int((2.2 + rng.random()) * H)
+        insts = [inst("A", conn=True, grace_us=grace)]
+        steps = [{"at": 0, "do": "start", "i": "A"}, {"at": t1, "do": "disc", "i": "A"},
+                 {"at": t1 + 200 * MS, "do": "out_put", "cls": "as:B"},
+                 {"at": t1 + 200 * MS + 2300 * MS, "do": "disc", "i": "A"}]
+        out.append(scn("conn-stale-grace-timer-%d" % k, seed * 1000 + 970 + k, H, 5.0, insts, steps, "conn", t1 + 3 * grace + 2 * S, lat=20 * MS, watch=30 * MS))
     # a connection notification delivered while a stop call is inside its critical section (same scheduler gate)
     for k in range(6 if tier == "quick" else 36):
         H = rng.choice([200 * MS, 500 * MS, 1 * S])
